@@ -241,6 +241,35 @@ def structures(chk, repo):
            "through r0 at offset 0", ok, lk, "base register 0, offset 0")
 
 
+def returned_buffers(func, only_names=False):
+    """(offenders, number of returns): the buffers a function returns must
+    be bytearray()/bytes() objects allocated in that call, on every path"""
+    cfg = CFG(func)
+    rd = ReachingDefs(cfg)
+    aliased = []
+    nret = 0
+    for n in cfg.nodes:
+        st = n.stmt
+        if n.kind == "return" and isinstance(st, ast.Return) and \
+                st.value is not None:
+            if not isinstance(st.value, ast.Name):
+                if only_names:
+                    continue
+                nret += 1
+                if not (isinstance(st.value, ast.Call) and dotted(
+                        st.value.func) in ("bytearray", "bytes")):
+                    aliased.append(unparse(st.value))
+                continue
+            nret += 1
+            for df in rd.reaching(n, st.value.id):
+                v = df.value
+                if not (df.kind == "assign" and isinstance(v, ast.Call)
+                        and dotted(v.func) in ("bytearray", "bytes")):
+                    aliased.append(f"{st.value.id} = "
+                                   f"{unparse(v) if isinstance(v, ast.AST) else df.kind}")
+    return aliased, nret
+
+
 def commands(chk, repo):
     for name, num in CMDS.items():
         f = repo.func(B + name)
@@ -280,26 +309,7 @@ def commands(chk, repo):
            "existing all-zero key and skips entries")
     # the key handed back is a buffer of its own (callers keep the keys
     # they were given while they go on iterating)
-    cfg = CFG(gk)
-    rd = ReachingDefs(cfg)
-    aliased = []
-    nret = 0
-    for n in cfg.nodes:
-        st = n.stmt
-        if n.kind == "return" and isinstance(st, ast.Return) and \
-                st.value is not None:
-            nret += 1
-            if not isinstance(st.value, ast.Name):
-                if not (isinstance(st.value, ast.Call) and dotted(
-                        st.value.func) in ("bytearray", "bytes")):
-                    aliased.append(unparse(st.value))
-                continue
-            for df in rd.reaching(n, st.value.id):
-                v = df.value
-                if not (df.kind == "assign" and isinstance(v, ast.Call)
-                        and dotted(v.func) in ("bytearray", "bytes")):
-                    aliased.append(f"{st.value.id} = "
-                                   f"{unparse(v) if isinstance(v, ast.AST) else df.kind}")
+    aliased, nret = returned_buffers(gk)
     need(nret >= 1, "get_next_key: no return of the key buffer found")
     chk.ob("R09.4", B + "get_next_key", "every call returns a freshly "
            "allocated key buffer", not aliased, gk,
@@ -307,6 +317,20 @@ def commands(chk, repo):
             "object is overwritten by the next step, so keys collected "
             "during iteration (list(table), items()) all turn into the "
             "last key") if aliased else "bytearray(...) on every path")
+    le = repo.func(B + "_lookup_elem")
+    chk.analysed(B + "_lookup_elem")
+    aliased, nret = returned_buffers(le, only_names=True)
+    if nret == 0:
+        # the buffer is returned through a decoding step: it must still be
+        # allocated here
+        need(bool(find("bytearray($n)", le)), "_lookup_elem: no value "
+             "buffer is allocated or returned")
+    chk.ob("R09.4", B + "_lookup_elem", "every lookup returns a value "
+           "buffer of its own", not aliased, le,
+           ("returns " + "; ".join(aliased) + ": TheDict hands the buffer "
+            "out as the .data of the value it returns, so a later lookup "
+            "rewrites the members of entries returned before") if aliased
+           else "bytearray(...) allocated in the call on every path")
     it = repo.func(H + "TheDict.__iter__")
     ok = bool(find("get_next_key(self.fd, self.key.stack)", it)) and bool(
         find("get_next_key(self.fd, current)", it))
